@@ -1,3 +1,4 @@
 import Model.Basic
 import Model.LinAlg
 import Model.Hull
+import Model.Fit
